@@ -819,7 +819,8 @@ class Model:
                         return v
                 return None
             has_table = any(table_value(n) is not None or type_tuple(n) is not None for n in ast.walk(fi.node))
-            if not has_table and fi.qualname not in self.inlined:
+            has_walrus = any(isinstance(n, ast.If) and any(isinstance(x, ast.NamedExpr) for x in ast.walk(n.test)) for n in ast.walk(fi.node))
+            if not has_table and not has_walrus and fi.qualname not in self.inlined:
                 continue
             if fi.qualname not in self.inlined:
                 self._expand(fi, [], [])       # a private copy of the tree
